@@ -68,26 +68,34 @@ structure Config where
   /-- `kwargs["restoration -> model"]` (default `True`) -/
   restorationFirst : Bool
 
-/-- `_clean_signal`: `np.clip(img - threshold, 0, None)` (threshold has shape (h, w)) -/
-def clean (thr : List Rat) (a : Arr) : Arr :=
-  { a with px := List.zipWith (fun p t => p.map fun x => posPart (x - t)) a.px thr }
+/-- `_clean_signal`: `np.clip(img - threshold, 0, None)`; the threshold has the shape of the (reduced) signal -/
+def clean (thr : List Px) (a : Arr) : Arr :=
+  { a with px := List.zipWith (fun p tp => List.zipWith (fun x t => posPart (x - t)) p tp) a.px thr }
 
-/-- element-wise maximum with a scalar signal (first channel of each pixel) -/
-def maxWith (thr : List Rat) (a : Arr) : List Rat :=
-  List.zipWith (fun t p => let x := p.headD 0; if t ≤ x then x else t) thr a.px
+/-- `max`, written as the code's comparison -/
+def maxR (t x : Rat) : Rat := if t ≤ x then x else t
+
+/-- `np.maximum(threshold, signal)`, element-wise -/
+def maxWith (thr : List Px) (a : Arr) : List Px :=
+  List.zipWith (fun tp p => List.zipWith maxR tp p) thr a.px
 
 def applyOpt (s : Option Stage) (a : Arr) : Arr :=
   match s with | some f => (f a).1 | none => a
 
-/-- `find_cleaning_filter`: zero, then element-wise max of the reduced differences of the extra baselines;
-`none` when there are no extra baselines -/
-def cleaningFilter (c : Config) (base : Arr) : List Arr → Option (List Rat)
+/-- `np.zeros(signal.shape)` -/
+def zerosLike (a : Arr) : List Px := a.px.map fun p => p.map fun _ => 0
+
+/-- the reduced difference of an extra baseline with the baseline -/
+def extraSignal (c : Config) (base b : Arr) : Arr := applyOpt c.reduction (diff c.opt base b)
+
+/-- `find_cleaning_filter`: zeros of the shape of the first reduced difference, then element-wise max of the
+reduced differences of all extra baselines; `none` when there are no extra baselines -/
+def cleaningFilter (c : Config) (base : Arr) : List Arr → Option (List Px)
   | [] => none
-  | extras => some (extras.foldl (fun thr b => maxWith thr (applyOpt c.reduction (diff c.opt base b)))
-      (List.replicate base.px.length 0))
+  | e :: es => some ((e :: es).foldl (fun thr b => maxWith thr (extraSignal c base b)) (zerosLike (extraSignal c base e)))
 
 /-- the stage objects that exist, in the order `__call__` applies them -/
-def stageList (c : Config) (thr : Option (List Rat)) : List (StageName × Stage) :=
+def stageList (c : Config) (thr : Option (List Px)) : List (StageName × Stage) :=
   (c.reduction.toList.map fun s => (StageName.reduction, s)) ++
   (thr.toList.map fun t => (StageName.cleaning, Stage.pure (clean t))) ++
   (c.balancing.toList.map fun s => (StageName.balancing, s)) ++
@@ -187,9 +195,59 @@ def wrapSub (bits p b : Nat) : Nat := (p + 2 ^ bits - b) % 2 ^ bits
 def diffPromoted (bits : Nat) (o : DiffOpt) (base probe : List Nat) : List Rat :=
   List.zipWith (fun p b => o.val (promote bits p) (promote bits b)) probe base
 
-/-- the threshold after processing the extra baselines one after the other (the loop of `find_cleaning_filter`
-on already reduced, scalar signals) -/
-def accumulate (n : Nat) (signals : List (List Rat)) : List Rat :=
-  signals.foldl (fun thr s => List.zipWith (fun t x => if t ≤ x then x else t) thr s) (List.replicate n 0)
+/-- the threshold after processing the reduced extra-baseline signals one after the other (the loop of
+`find_cleaning_filter`), starting from zeros of the shape of the first -/
+def accumulate (signals : List (List Px)) : List Px :=
+  signals.foldl (fun thr s => List.zipWith (fun tp p => List.zipWith maxR tp p) thr s)
+    ((signals.headD []).map fun p => p.map fun _ => 0)
+
+/-! ### the analysis object as a state machine: construction, `update`, calls -/
+
+structure AState where
+  base : Option Arr
+  thr : Option (List Px)
+
+/-- `ConcentrationAnalysis.__init__` -/
+def AState.init (c : Config) (base : Option Arr) (extras : List Arr) : AState :=
+  { base := base, thr := match base with | some b => cleaningFilter c b extras | none => none }
+
+/-- `update(base=b)` (fixed code): the promoted copy of `b` replaces the stored baseline; the cleaning filter is kept.
+`update(mask=...)` does not enter the analysis of this class. -/
+def AState.update (st : AState) (newBase : Option Arr) : AState :=
+  match newBase with | some b => { st with base := some b } | none => st
+
+/-- `__call__` in a given state -/
+def callSt (c : Config) (probeKind : Kind) (st : AState) (probe : Arr) : Result :=
+  let d := match st.base with
+    | some b => diff c.opt b probe
+    | none => diffNoBase c.opt probe
+  let r := runStages (stageList c st.thr) d
+  { out := r.1, trace := r.2, kind := resultKind probeKind probe.ndim r.1.ndim, probeAfter := probe, baseAfter := st.base }
+
+/-! ### the call on buffers
+
+Cell 0 is the caller's probe array, cell 1 the stored baseline (if any). `probe_img = copy.deepcopy(img)` allocates
+a copy (`deep = true`; `deep = false` is the variant without it). The difference is a new array, except for option
+`plain` without a baseline, where it IS the array of the (copied) probe. A stage receives a buffer, may overwrite
+it (second component of `Stage`) and returns a new array. -/
+
+def emptyArr : Arr := { scalar := true, px := [] }
+
+def runStagesOp : List (StageName × Stage) → List Arr → Nat → List Arr × Nat
+  | [], h, cur => (h, cur)
+  | (_, s) :: rest, h, cur =>
+    let r := s ((h[cur]?).getD emptyArr)
+    runStagesOp rest (h.set cur r.2 ++ [r.1]) h.length
+
+def callOp (deep : Bool) (c : Config) (st : AState) (probe : Arr) : List Arr × Nat :=
+  let h0 := [probe] ++ st.base.toList
+  let h1 := if deep then h0 ++ [probe] else h0
+  let cp := if deep then h0.length else 0
+  let img := (h1[cp]?).getD emptyArr
+  match st.base with
+  | some b => runStagesOp (stageList c st.thr) (h1 ++ [diff c.opt b img]) h1.length
+  | none =>
+    if c.opt = .plain then runStagesOp (stageList c st.thr) h1 cp
+    else runStagesOp (stageList c st.thr) (h1 ++ [diffNoBase c.opt img]) h1.length
 
 end Darsia.Pipeline
